@@ -397,6 +397,26 @@ def rule_range(fx, rep, ex, arms):
     rep.obligation(good)
     if not good:
         bad("hash-resize", "the value accepted by `setoption name Hash` does not reach TranspositionTable::resize")
+    # ... on every run: once the setter has accepted the text, the arm cannot finish without having tried to take the shared
+    # state (where the table is resized, or the refusal is reported). A shortcut decided from EngineOptions alone ("same value
+    # as configured") is wrong whenever an earlier attempt was refused during a search: the option then already holds the value
+    # the table never received (seed C13-5a)
+    if hash_ty:
+        n += 1
+        setc = [bb for bb in sorted(so_region) if ex.blocks[bb]["term"]["k"] == "call" and fx.body(callee_name(ex.blocks[bb]["term"]) or "") is not None and
+                norm(fx.body(callee_name(ex.blocks[bb]["term"])).name) == norm(hash_ty[0] + "::set")]
+        locks = [bb for bb in so_region if ex.blocks[bb]["term"]["k"] == "call" and norm(callee_name(ex.blocks[bb]["term"]) or "").split("::")[-1] in ("try_lock", "lock")]
+        errs = [bb for bb in so_region if ex.blocks[bb]["term"]["k"] == "call" and norm(callee_name(ex.blocks[bb]["term"]) or "").endswith("from_residual")]
+        good = True
+        if len(setc) == 1 and locks:
+            r = ex.reachable(ex.blocks[setc[0]]["term"]["target"], removed_blocks=locks + errs)
+            escapes = [x for bb in r if bb in so_region for x in ex.succ(bb) if x not in so_region and ex.blocks[x]["term"]["k"] != "unreachable"]
+            good = not escapes
+        else:
+            rep.notes.append("C13-RANGE: the Hash arm does not have one setter call followed by a lock attempt; the every-run clause is not decided")
+        rep.obligation(good)
+        if not good:
+            bad("hash-resize/skipped", "the Hash arm can finish, with the value accepted, without trying to take the shared state: the table is then not resized although EngineOptions records the new size (e.g. the same value sent again after a `setoption` that was refused during a search)")
     cne = fx.one("transposition_table::calculate_number_of_entries")
     mx = spin.get(hash_ty[0], {}).get("max") if hash_ty else None
     n += 1
@@ -420,6 +440,11 @@ U = "src/engine/uci/mod.rs"
 O = "src/engine/uci/options.rs"
 TTF = "src/engine/transposition_table.rs"
 MUTANTS = [
+    {"name": "Hash value equal to the configured one is not applied (seed C13-5a)", "expect": "C13-RANGE/hash-resize/skipped",
+     "edits": [(O, "    pub fn set(options: &mut EngineOptions, value: &str) -> Result<usize, String> {\n        let hash_size = value.parse::<usize>().map_err(|_| \"Invalid value\")?;\n", "    pub fn set(options: &mut EngineOptions, value: &str) -> Result<Option<usize>, String> {\n        let hash_size = value.parse::<usize>().map_err(|_| \"Invalid value\")?;\n        if hash_size == options.hash_size {\n            return Ok(None);\n        }\n"),
+               (O, "        options.hash_size = hash_size;\n        Ok(hash_size)", "        options.hash_size = hash_size;\n        Ok(Some(hash_size))"),
+               (U, "                        let new_size = options::HashOption::set(&mut self.options, value)?;\n", "                        let new_size = options::HashOption::set(&mut self.options, value)?;\n                        if let Some(new_size) = new_size {\n"),
+               (U, "                                .generic_report(\"error: Unable to change TT size during search\");\n                        }\n", "                                .generic_report(\"error: Unable to change TT size during search\");\n                        }\n                        }\n")]},
     {"name": "option name rebuilt without its spaces (seed C13-5b)", "expect": "C13-NAME/Move Overhead",
      "edits": [("src/engine/uci/parser.rs", "            name: name.to_string(),\n            value: value.to_string(),", "            name: name.split_whitespace().collect(),\n            value: value.trim().to_string(),")]},
     {"name": "benign: option name and value trimmed", "benign": True,
